@@ -28,7 +28,21 @@ def budget(tier):
     return dict(examples=1500, shards=4, procs=4)
 
 
+BIG_MONOMERS = ['[>]COC[<]', '[>]CC([<])C', '[>]CC([<])c1ccccc1', '[>]CC([<])C(=O)OC', '[>]C(F)(F)[<]', '[>]NCC(=O)[<]']
+
+
+def gen_big(R):
+    """all-atom samples of more than 1024 atoms (polymer-sized targets)"""
+    mons = R.sample(BIG_MONOMERS, R.choice([1, 2, 2, 3]))
+    s = '{' + ','.join('#M%d=%s' % (i, t) for i, t in enumerate(mons)) + '}'
+    return dict(input=s, pr={'>1': 1.0, '<1': round(R.uniform(0.2, 1.0), 2)}, fragr={}, term=[], masses=None, all_atom=True,
+                seed=R.randint(0, 10 ** 6), target=R.choice([9000, 12000, 16000]), start=R.choice([None, 'M0']), expected_mass={},
+                features=['all_atom', 'sample_of_1000+_atoms', 'nfrag:%d' % len(mons)])
+
+
 def gen(R, tier):
+    if R.randint(0, 999) in (437, 438, 439, 440, 441):     # ~0.5 % (a mid-range value: not favoured by the skew of bounded draws)
+        return gen_big(R)
     return sampler.gen_cfg(R, tier)
 
 
